@@ -202,6 +202,19 @@ def sweep_pairs(pool: dict, tier: str = "quick", vseed: int = 0) -> list[dict]:
                               "cold": "all", "warm_lookups": k})
     # IBAN-level pairs across different banks / methods (shared lookup paths, no shared method object)
     keys = sorted(k for k in pool["de_ibans"] if pool["de_ibans"][k])
+    # ... a rotating few of them (all in thorough) also at bytecode granularity: windows inside one source line of
+    # the lookup / parsing code (a two-store memo, a tuple assignment to two globals)
+    opcode_pairs = range(len(keys)) if tier == "thorough" else {(vseed * 3 + j * 11) % max(1, len(keys)) for j in range(3)}
+    for i in sorted(opcode_pairs):
+        if len(keys) < 2:
+            break
+        key, other = keys[i], keys[(i + 1) % len(keys)]
+        acc = first(pool["de_ibans"][key], lambda c: c.startswith("accept"))
+        rej = first(pool["de_ibans"][other], lambda c: c.startswith("reject"))
+        if acc and rej:
+            pairs.append({"ops": [["iban", acc, {"validate_bban": True}], ["iban", rej, {"validate_bban": True}]],
+                          "targets": ["bank_index", "bank_index"], "label": f"IBAN {key} x {other} (opcode)",
+                          "granularity": "opcode"})
     for i, key in enumerate(keys):
         other = keys[(i + 1) % len(keys)]
         acc = first(pool["de_ibans"][key], lambda c: c.startswith("accept"))
